@@ -509,7 +509,7 @@ CMR_ERROR addToGraph1Row(
     CMR_CALL( CMRfreeStackArray(cmr, &nodeStacks[0]) );
     CMR_CALL( CMRfreeStackArray(cmr, &nodesParent) );
 
-    if (countCandidates == 1 || countCandidates == 2)
+    if (countCandidates >= 1)
     {
       for (CMR_GRAPH_NODE splitNode = CMRgraphNodesFirst(graph); CMRgraphNodesValid(graph, splitNode);
         splitNode = CMRgraphNodesNext(graph, splitNode))
@@ -642,6 +642,10 @@ CMR_ERROR addToGraph1Row(
         CMR_CALL( CMRfreeStackArray(cmr, &componentAuxiliaryNodes) );
         CMR_CALL( CMRfreeStackArray(cmr, &nodesComponent) );
         CMR_CALL( CMRgraphFree(cmr, &auxiliaryGraph) );
+
+        /* The graph was extended at this candidate; the remaining candidates refer to the old graph. */
+        if (*pisGraphic)
+          break;
       }
     }
   }
